@@ -20,8 +20,10 @@ def mc_gran(years, days):
 def run(ctx):
     quick = ctx.tier == "quick"
     ctx.prepare_spec()
-    for m in ("DateCompareOps", "DateCompare", "DateCompareTrace"):
+    for m in ("DateCompareRel", "DateCompareOps", "DateCompare", "DateCompareTrace", "DateCompareInd"):
         ctx.sany(m)
+    # the laws of the relation algebra for ALL pairs of forward integer intervals (SMT), not only those of TLC's window
+    ctx.apalache("DateCompareInd", "Laws", length=0, timeout=900)
     ctx.build_vh()
     jobs = [("MC_DateCompare", mc_compare(10 if quick else 13)),
             ("MC_DateGranularity", mc_gran([1999, 2000, 2001], [1, 15]) if quick else mc_gran([1899, 1900, 1901, 2000], [1, 2, 15, 28]))]
@@ -51,6 +53,8 @@ def run(ctx):
         "orders give converse relations (DateCompareOps!AllowedPairs)",
         "dates of month/year granularity are the day intervals given by lib/Calendar.tla",
     ]
+    ctx.assumptions.append("apalache-mc (length 0, end points ranging over Int) establishes DateCompareInd!Laws: totality, converse law for proper ranges, "
+                           "uniqueness for proper ranges, self-equality, converse-consistent pick, existence of a lawful pair of answers, sound verdicts")
     rule = ("A: every [a,b] x [c,d] in a day window, mapped onto 8 calendar anchors (month, year, leap-day, century and int64-nanosecond "
             "boundaries) and every day/month/year granularity pairing in a multi-year span, compared both ways through the constructor and "
             "the parser; B: %d random ranges over years 1..9999 judged by DateCompareTrace" % total)
